@@ -91,7 +91,14 @@ class SArr:
         return SArr(shape, at, self.dtype, self.log, kind or "array", struct)
 
     def astype(self, dtype=None, *a, **k):
-        return self
+        # values are exact reals (rounding to the target type is not modelled); the advertised dtype is followed
+        if dtype is None or np.dtype(dtype) == self.dtype:
+            return self
+        out = SArr(self.shape, self._at, np.dtype(dtype), self.log, self.kind, self.struct)
+        for extra in ("lemmas", "_symx_token"):
+            if hasattr(self, extra):
+                setattr(out, extra, getattr(self, extra))
+        return out
 
     def view(self, *a, **k):
         return self
@@ -658,13 +665,15 @@ def _UF(name, *args):
     return _uf_cache[key](*args)
 
 
-def leaf(name, shape, log=None, itemsize=8, kind="array", cls=None):
+def leaf(name, shape, log=None, itemsize=8, kind="array", cls=None, dtype=None):
     """A source array: elements are an uninterpreted function of the position."""
     nd = len(shape)
     L = Leaf(name, nd)
     f = L.fn
     c0 = z3.Real(f"src_{name}_scalar") if not nd else None
     dt = np.dtype(f"V{itemsize}") if itemsize not in (1, 2, 4, 8) else np.dtype(f"i{itemsize}")
+    if dtype is not None:
+        dt = np.dtype(dtype)
     out = (cls or SArr)(shape, (lambda idx: f(*idx)) if nd else (lambda idx: c0), dt, log, kind)
     out._symx_token = f"leaf:{name}"
     out.struct = ("aff", L, [("lin", 0, 1, j) for j in range(nd)])
@@ -795,6 +804,7 @@ _NP_FUNCS = dict(
     swapaxes=lambda a, i, j: _swapaxes(a, i, j),
     repeat=lambda a, repeats, axis=None: _repeat(a, repeats, axis),
     take=lambda a, indices, axis=None, **k: _take(a, indices, axis),
+    can_cast=lambda from_, to, casting="safe": np.can_cast(from_.dtype if isinstance(from_, SArr) and from_.dtype is not None else np.float64, to, casting=casting),
     empty_like=lambda a, dtype=None, order="K", subok=True, shape=None: _empty_like(a, shape),
     sliding_window_view=lambda x, window_shape, axis=None, **k: _sliding_window_view(x, window_shape, axis),
     cumsum=lambda a, axis=None, dtype=None, out=None: a.accumulate(axis, "add"),
